@@ -151,11 +151,19 @@ func c02Case(c *fw.Case, t *pdus.Type, force, class int, g *gridCell) {
 		}
 		// the reference image of what the encoder was asked to encode
 		post.Cmd = v.Cmd
+		post.Status = v.Status
 		ref := pdus.RefEncode(t, post)
+		if t.BodylessOnError && v.Status != 0 && len(b) > len(ref) && bytes.Equal(b[4:len(ref)], ref[4:]) {
+			// the one conditional layout of the five documents: no body behind an error status
+			c.Failf("encode-layout/"+t.Key()+"/body-present-with-error-status", "command_status %#x: the document says the PDU body is not returned, the encoder emits %d octets behind the header\n got=%s\nwant=%s", v.Status, len(b)-len(ref), hx(b), hx(ref))
+			b = nil
+		}
 		mand := pdus.MandatoryLen(t, ref)
 		cmpLen := mand
 		same := len(b) >= cmpLen && bytes.Equal(b[:cmpLen], ref[:cmpLen])
-		if same {
+		if b == nil {
+			// reported above
+		} else if same {
 			// optional-parameter tail as a set
 			lt, e1 := tlvTail(b[cmpLen:])
 			rt, _ := tlvTail(ref[cmpLen:])
@@ -170,7 +178,7 @@ func c02Case(c *fw.Case, t *pdus.Type, force, class int, g *gridCell) {
 			c.Failf("encode-layout/"+t.Key()+"/"+fieldAt(t, post, off), "library image differs from the specification layout at offset %d (field %s)\n got=%s\nwant=%s\n%s",
 				off, fieldAt(t, post, off), hx(b), hx(ref), ctx())
 		}
-		if int(be32(b)) != len(b) {
+		if b != nil && int(be32(b)) != len(b) {
 			c.Failf("length-prefix/"+t.Key(), "first four octets announce %d, image has %d octets\n%s", be32(b), len(b), ctx())
 		}
 	}
